@@ -515,19 +515,28 @@ def native_features():
             got = "%s: %s" % (type(e).__name__, e)
         if got != [["AB", "C D"]]:
             failures.append(dict(key="ods-text-s-count", what="text:s with text:c 0 / 1 read as %r, expected [['AB', 'C D']]" % (got,), args={}))
-        for enc in ("iso-8859-1", "windows-1252", "utf-16"):
-            n += 1
-            p = os.path.join(d, "enc_%s.ods" % enc)
-            doc = encode_document([("s", [["K\xe4se", "na\xefve"]])]).replace('encoding="UTF-8"', 'encoding="%s"' % enc)
-            with zipfile.ZipFile(p, "w", zipfile.ZIP_DEFLATED) as z:
-                z.writestr("mimetype", "application/vnd.oasis.opendocument.spreadsheet")
-                z.writestr("content.xml", doc.encode(enc))
-            try:
-                got = list(rowio.ods_rows(p, 1))
-            except Exception as e:  # noqa
-                got = "%s: %s" % (type(e).__name__, e)
-            if got != [["K\xe4se", "na\xefve"]]:
-                failures.append(dict(key="ods-document-encoding", what="content.xml encoded as %s read as %r" % (enc, got), args=dict(encoding=enc)))
+        for enc in ("iso-8859-1", "windows-1252", "utf-16", "utf-16-be", "utf-16-le", "utf-8", "utf-8-sig", "us-ascii"):
+            for tail in ("", "\n", "\r\n \n"):
+                n += 1
+                p = os.path.join(d, "enc_%s_%d.ods" % (enc, len(tail)))
+                table = [["K\xe4se", "na\xefve"]] if enc != "us-ascii" else [["Kaese", "naive"]]
+                declared = {"utf-16-be": "UTF-16", "utf-16-le": "UTF-16", "utf-8-sig": "UTF-8"}.get(enc, enc)
+                doc = encode_document([("s", table)]).replace('encoding="UTF-8"', 'encoding="%s"' % declared) + tail
+                payload = doc.encode(enc)
+                if enc == "utf-16-be":
+                    payload = b"\xfe\xff" + payload
+                elif enc == "utf-16-le":
+                    payload = b"\xff\xfe" + payload
+                with zipfile.ZipFile(p, "w", zipfile.ZIP_DEFLATED) as z:
+                    z.writestr("mimetype", "application/vnd.oasis.opendocument.spreadsheet")
+                    z.writestr("content.xml", payload)
+                try:
+                    got = list(rowio.ods_rows(p, 1))
+                except Exception as e:  # noqa
+                    got = "%s: %s" % (type(e).__name__, e)
+                if got != table:
+                    failures.append(dict(key="ods-document-encoding", what="content.xml encoded as %s (trailing %r) read as %r" % (enc, tail, got),
+                                         args=dict(encoding=enc, tail=tail)))
         # the same path read again after the document changed (nothing about an earlier read may be remembered)
         p = os.path.join(d, "changing.ods")
         for version, table in enumerate(([["v1", "a"]], [["v2", "b"], ["v2", "c"]])):
